@@ -27,6 +27,7 @@ import (
 	"strconv"
 	"strings"
 	"sync"
+	"sync/atomic"
 	"time"
 
 	"github.com/gopacket/gopacket"
@@ -276,6 +277,10 @@ type gates struct {
 }
 
 func (g *gates) hook(job string, args ...string) {
+	if atomic.LoadInt32(&freeGates) != 0 {
+		freeJobDone(job) // free-running mode (free.go, property C20): jobs complete on their own
+		return
+	}
 	ch := make(chan struct{})
 	g.mu.Lock()
 	g.waiting[job] = ch
@@ -1151,6 +1156,10 @@ func (h *harness) runScenario(in io.Reader, out io.Writer) error {
 		line := strings.TrimSpace(sc.Text())
 		var ev event
 		var err error
+		if line == "free" {
+			// the rest of the scenario runs without gates (free.go, property C20)
+			return h.freeRun(sc, w)
+		}
 		if line == "settle" {
 			ev, err = h.settle()
 		} else if strings.HasPrefix(line, "crashcheck") {
@@ -1612,12 +1621,17 @@ func main() {
 	keep := fs.String("dir", "", "data directory (default: temp dir removed at exit)")
 	verbose := fs.Bool("v", false, "keep the service's log output")
 	crash := fs.Bool("crash", false, "gen: insert crashcheck ops")
+	free := fs.Int("free", -1, "gen: K gated ops, then `free` and -n free-running ops (property C20)")
 	fs.Parse(os.Args[2:])
 	switch os.Args[1] {
 	case "gen":
 		genCrash = *crash
 		w := bufio.NewWriter(os.Stdout)
-		gen(*seed, *n, w)
+		if *free >= 0 {
+			genFree(*seed, *n, *free, w)
+		} else {
+			gen(*seed, *n, w)
+		}
 		w.Flush()
 	case "run":
 		if !*verbose {
